@@ -482,10 +482,37 @@ pub fn c11_wrap_column(input: &str, cfg: &Cfg, w1: u32, w2: u32) -> Vec<String> 
         fails.push(format!("c11: result for wrap_column={} fits in {} but the result for {} differs", w2, w1, w1));
     }
     if lines(&o2) > lines(&o1) {
-        fails.push(format!("c11: widening wrap_column from {} to {} increases the number of lines", w1, w2));
+        let overflow = if width(&o1) > w1 as usize { " (the narrower result has lines that do not fit)" } else { "" };
+        fails.push(format!("c11: widening wrap_column from {} to {} increases the number of lines{}", w1, w2, overflow));
     }
     if width(&o1) <= w1 as usize && width(&o2) > w2 as usize {
         fails.push(format!("c11: every line fits at {} but not at {}", w1, w2));
+    }
+    fails
+}
+
+/// C11 at the exact-fit boundaries of one program: every (sampled) line width of the result at a generous width, and two
+/// columns more, against that generous width
+pub fn c11_sweep(input: &str, cfg: &Cfg) -> Vec<String> {
+    let mut wide = cfg.clone();
+    wide.wrap_column = 200;
+    let o = fmt(input, &wide);
+    let mut widths: Vec<usize> = o.split('\n').map(|l| l.trim_end_matches('\r').len()).filter(|w| *w >= 6 && *w < 198).collect();
+    widths.sort();
+    widths.dedup();
+    let step = (widths.len() + 7) / 8;
+    let mut fails = vec![];
+    for (i, w) in widths.iter().enumerate() {
+        if step > 1 && i % step != 0 {
+            continue;
+        }
+        for w1 in [*w as u32, *w as u32 + 2] {
+            for f in c11_wrap_column(input, cfg, w1, 200) {
+                if !fails.contains(&f) {
+                    fails.push(f);
+                }
+            }
+        }
     }
     fails
 }
